@@ -138,7 +138,13 @@ def run(prog, scopes, exceptions=None, rule="R-EXACT", floors=()):
                     res.excepted.append(("%s|%s" % (f.name, sink), ex))
                     continue
                 chain = [prog.funcs[x].name if x in prog.funcs else x for x in prog.chain(parent, k)]
-                res.violations.append(Violation(rule, "%s|%s|%s" % (sname, f.name, sink), f.name, short_loc(loc),
+                vkey = "%s|%s|%s" % (sname, f.name, sink)
+                prev = [v for v in res.violations if v.key == vkey]
+                if prev:
+                    prev[0].extra["sites"] = prev[0].extra.get("sites", 1) + 1
+                    prev[0].msg = prev[0].msg.split(" [")[0] + " [%d sites]" % prev[0].extra["sites"]
+                    continue
+                res.violations.append(Violation(rule, vkey, f.name, short_loc(loc),
                                                 "lossy conversion (%s) on a data/decision path of scope %s: %s" % (desc, sname, show(c)), chain=chain))
         res.counts["scope_%s_sink_sites" % sname] = n_sites
     res.counts["census"] = dict(census)
